@@ -29,7 +29,7 @@ fn stable_dump(c: &Client) -> Vec<String> {
 pub fn explore_pairs(w: &World, member: &str, regime: Regime, max_pairs: usize, rep: &mut Report) {
     let pool_ids = w.pool_ids();
     let wids = w.welcome_ids();
-    let opts = ExploreOpts { regime, max_states: usize::MAX, with_restart: true, with_local_ops: true, keep_key_json: false, pool_filter: None, with_welcomes: false, welcome_consent: 0 };
+    let opts = ExploreOpts { regime, max_states: usize::MAX, with_restart: true, with_local_ops: true, keep_key_json: false, pool_filter: None, with_welcomes: false, welcome_consent: 0, prejoin: false };
     let mut recs: Vec<PairRec> = vec![PairRec { parent: None, restarts_since_sync: false, rand_diverged: false }];
     let mut live: HashMap<usize, (Client, Client, StateRec)> = HashMap::new();
     let mut index: HashMap<(u64, u64), usize> = HashMap::new();
@@ -171,7 +171,7 @@ pub fn explore_pairs(w: &World, member: &str, regime: Regime, max_pairs: usize, 
                 b = step(w, &b, *x).client;
             }
         }
-        let k = (snap(&a, w, &pool_ids, &wids).key_hash, snap(&b, w, &pool_ids, &wids).key_hash);
+        let k = (snap(&a, w, &pool_ids, &wids).key_hash, snap(&b, w, &pool_ids, &wids).key_hash ^ if b.reopened { 0x5bd1e995 } else { 0 });
         if index.get(&k) == Some(&(recs.len() - 1)) {
             rep.traces_validated += 1;
         } else {
@@ -184,5 +184,5 @@ pub fn explore_pairs(w: &World, member: &str, regime: Regime, max_pairs: usize, 
 fn snap(c: &Client, w: &World, pool_ids: &[nostr::EventId], wids: &[nostr::EventId]) -> StateRec {
     let key = c.key(pool_ids, wids).to_string();
     let g = c.group_obs(&w.gid);
-    StateRec { key_hash: h64(&key), obs_hash: 0, g, dedup: vec![], snap_queue: vec![], snap_stored: vec![], depth: 0, parent: None, key_json: None, auto_pending: false, send_ok: None, foreign_msgs: 0, welcome_states: vec![] }
+    StateRec { key_hash: h64(&key), obs_hash: 0, g, dedup: vec![], snap_queue: vec![], snap_stored: vec![], depth: 0, parent: None, key_json: None, auto_pending: false, send_ok: None, foreign_msgs: 0, welcome_states: vec![], welcome_dedup: vec![] }
 }
